@@ -16,18 +16,21 @@ from pyvc.dsl import contract
 YS = "yamlpath.commands.yaml_set."
 
 
-def _ext(target, event, returns=None, raises=("OSError",), notes=""):
+def _ext(target, event, returns=None, raises=("OSError",), notes="", call_form=None):
     body = {"assumed": True,
             "notes": notes or "file-system call of the standard library: only THAT it is called, with which arguments, is recorded",
             "raises": list(raises),
-            "opts": dict({"event": event}, **({"returns": returns} if returns else {}))}
+            "opts": dict({"event": event}, **dict({"returns": returns} if returns else {}, **({"call_form": call_form} if call_form else {})))}
     cls = type("Ext_" + target.replace(":", "_").replace(".", "_"), (), body)       # (the decorator reads the class body)
     return contract(target, props=["C17"])(cls)
 
 
 _ext("ext:os.path.exists", "('exists', a0, result)", returns="bool", raises=())
 _ext("ext:os.remove", "('remove', a0)")
-_ext("ext:shutil.copy2", "('copy2', a0, a1)")
+_ext("ext:shutil.copy2", "('copy2', a0, a1)",
+     notes="shutil.copy2(src, dst): dst becomes a regular file holding the bytes src names (links followed) -- assumed for exactly "
+           "this two-argument form; the bounded harness rtc/c17 compares the backup with the pre-image, through a symlink too",
+     call_form={"nargs": 2, "keywords": {"follow_symlinks": True}, "text": "copy2(src, dst): the bytes are copied, links followed"})
 _ext("ext:json.dump", "('json.dump',)")
 _ext("extmethod:dump", "('dump',)", raises=("OSError", "AssertionError"),
      notes="ruamel YAML.dump(data, stream): only the fact of the call is recorded")
